@@ -278,7 +278,7 @@ def matchesObj (c : Ctx) (o : Obj) (attrs : List TAttr) : R Bool := do
 /-- stable sort by initial date, newest first (insertion sort; equal dates keep their order) -/
 def insertDesc (o : Obj) : List Obj → List Obj
   | [] => [o]
-  | x :: xs => if x.initialDate < o.initialDate then o :: x :: xs else x :: insertDesc o xs
+  | x :: xs => if x.initialDate ≤ o.initialDate then o :: x :: xs else x :: insertDesc o xs
 
 def sortDesc : List Obj → List Obj
   | [] => []
@@ -356,7 +356,8 @@ def opGetAttributeList (c : Ctx) (e : Engine) (uid : Option String) : R (Engine 
   let uid := uidOr uid e.placeholder
   let o ← getWithAccess c e uid Op.getAttributeList
   let as ← getAttrs c e.version o []
-  pure (e, .names (showUid uid) (as.map (·.name)))
+  -- the response payload keeps the first occurrence of each name
+  pure (e, .names (showUid uid) (as.map (·.name)).eraseDups)
 
 /-! ### Activate / Revoke / Destroy -/
 def opActivate (c : Ctx) (e : Engine) (uid : Option String) : R (Engine × Data) := do
@@ -395,6 +396,8 @@ def opDestroy (c : Ctx) (e : Engine) (uid : Option String) : R (Engine × Data) 
 
 /-! ### Query / DiscoverVersions -/
 def opQuery (e : Engine) (functions : List Nat) : R (Engine × Data) :=
+  -- `payload.query_functions` is `None` for an empty list: `x in None` is a TypeError
+  if functions.isEmpty then ierr "argument of type 'NoneType' is not iterable" else
   let base := [Op.create, Op.createKeyPair, Op.register, Op.deriveKey, Op.locate, Op.get, Op.getAttributes,
                Op.getAttributeList, Op.activate, Op.revoke, Op.destroy, Op.query]
   let ops := if functions.contains 1 then
